@@ -51,7 +51,13 @@ Definition ke_weierstrass (C : wcurve) : KeOps wpoint Z := {|
   k_Npk := w_Npk C;
   k_Nsk := w_Nfe C;
   k_ser_pk := w_ser C;
-  k_deser_pk := fun b => w_deser_gen C false b;
+  (* elliptic_curve.rs::deserialize_pk: from_sec1_bytes (which also takes the compact
+     tag), then "only accept the encoding produced by serialize_pk" *)
+  k_deser_pk := fun b =>
+    match w_deser_gen C true b with
+    | Some P => if bytes_eqb (w_ser C P) b then Some P else None
+    | None => None
+    end;
   k_ser_sk := w_ser_scalar C;
   k_deser_sk := w_deser_scalar C;
   k_pub := fun sk => w_mul C (w_base C) sk;
